@@ -58,6 +58,8 @@ Definition judge (t : tree) : option (list Z) :=
       Some [if ok then 0 else 2]
     | _, _ => Some [2; 8]
     end
+  (* only the START state of the builder is Default: [start; sizes+program+limit without values; everything; the state itself] *)
+  | L [L [A 2]; o] => olet o := tlist tZ o in Some [if zl_eqb o [1; 0; 0; 1] then 0 else 2]
   | L [L [A 1; A nstacks; cs]; L [A compiled]] =>
     olet cs := tlist dec_call cs in
     Some [if Bool.eqb (typed (Z.to_nat nstacks) cs) (compiled =? 1) then 0 else 2; if typed (Z.to_nat nstacks) cs then 1 else 0]
